@@ -55,6 +55,7 @@ type Case struct {
 	Ops    []Op     `json:"ops"`
 	Probes []string `json:"probes"`
 	Seed   int64    `json:"seed"`
+	Debug  bool     `json:"debug,omitempty"` // log level debug (entries encoded and discarded), see setLog
 }
 
 var alphabet = "abcdefgh"
@@ -118,6 +119,7 @@ func genRange(t *rapid.T) (string, string) {
 
 func genCase(t *rapid.T) Case {
 	var c Case
+	c.Debug = vkit.Uni(t, 4, "debugLog") == 0
 	nInit := 0
 	switch vkit.Uni(t, 10, "bulk") {
 	case 0, 1, 2, 3:
@@ -283,6 +285,11 @@ func (m *model) build(id uint64, start, end string, b Body) *mreg {
 func runCase(c Case) (vkit.Info, error) {
 	var info vkit.Info
 	rand.Seed(c.Seed)
+	setLog(c.Debug)
+	defer setLog(false)
+	if c.Debug {
+		info.Class("log-level-debug")
+	}
 	bc := core.NewBasicCluster()
 	ri := bc.Regions
 	m := &model{nextID: 1, nextP: 1000}
